@@ -210,3 +210,8 @@ package crypto
 // by the contracts of (Multi).Len and (Multi).Contains above; Participants returns the
 // receiver.)
 //@ axiom multi_eddsa_refines forall s hotstuff.QuorumSignature :: istype(s, Multi[*EDDSASignature]) ==> hotstuff.setlen(hotstuff.parts(s)) == len(as(s, Multi[*EDDSASignature]))
+
+//@ interface Base.Sign
+//@   ensures err == nil ==> signature != nil
+//@   ensures err != nil ==> signature == nil
+//@   modifies alloc
